@@ -208,7 +208,10 @@ def rule_r4(repo):
                 found = False
                 for e in r.events:
                     pass
-                node_objs = [v for v in r.locals.values() if isinstance(v, Obj) and v.cls == cls]
+                # the marker node, wherever it was created (this function or a helper): it hangs on the owner the links designate
+                owners = [e[1] for e in r.events if e[0] == 'owner']
+                node_objs = [a for o in owners if isinstance(o, Obj) for a in (o.fields.get('attributes') or []) if isinstance(a, Obj) and a.cls == cls]
+                node_objs += [v for v in r.locals.values() if isinstance(v, Obj) and v.cls == cls and not any(v is x for x in node_objs)]
                 for nobj in node_objs:
                     attrs = nobj.fields.get('attributes') or []
                     if any(isinstance(a, Obj) and repr(a.fields.get('index')) == meaning for a in attrs):
